@@ -117,7 +117,9 @@ fn rand_prefix(rng: &mut Rng, l: usize) -> String {
 fn gen(seed: u64) -> Plan20 {
     let mut rng = Rng::new(seed);
     let rng = &mut rng;
-    let bits = *rng.pick(&[2u32, 2, 3, 3, 4, 5, 6, 6, 8, 16]);
+    // mostly small trees (dense coverage of the rule); sometimes deep ones, where level jumps of
+    // 61..70 and more (shift widths of machine words) and long prefixes occur
+    let bits = *rng.pick(&[2u32, 2, 3, 3, 4, 5, 6, 6, 8, 16, 33, 63, 64, 65, 66, 70, 128, 130, 300]);
     let mut reqs: Vec<Req> = Vec::new();
     // the collector's admissible chain
     let k = 1 + rng.usize_below(5.min(bits as usize));
@@ -461,7 +463,7 @@ impl Check for Check20 {
         out.into_iter().map(|x| serde_json::to_value(x).unwrap()).collect()
     }
     fn rule(&self) -> String {
-        "seeded collector traffic for two Poplar1 aggregators (bits 2..16, chains of 1..5 admissible parameters with sets <= 8, plus 0..4 Byzantine requests: same-level, extends-first-not-last, partially extending, regressing, level-skipping, constructor-inadmissible lists, raw header extremes), delivered with duplication, reordering and replay; every (cur, prev) pair judged by the specification rule; constructor and decoder acceptance judged by a reference predicate over the harness's own parse of the wire layout; fixed floor: all 18 parameters x all histories of length <= 2 for bits = 2; distinct = distinct (bits, request count, verdict sequence) signatures".into()
+        "seeded collector traffic for two Poplar1 aggregators (bits 2..16 mostly, 33..300 sometimes; chains of 1..5 admissible parameters with sets <= 8, plus 0..4 Byzantine requests: same-level, extends-first-not-last, partially extending, regressing, level-skipping, constructor-inadmissible lists, raw header extremes), delivered with duplication, reordering and replay; every (cur, prev) pair judged by the specification rule; constructor and decoder acceptance judged by a reference predicate over the harness's own parse of the wire layout; fixed floor: all 18 parameters x all histories of length <= 2 for bits = 2; distinct = distinct (bits, request count, verdict sequence) signatures".into()
     }
     fn assumptions(&self) -> Vec<String> {
         vec!["the specification rule and the wire layout are transliterated in the harness (checks_c20.rs)".into(), "aggregator nodes are thin: they hold the accepted list per report and call the library for every request that decodes".into()]
